@@ -225,6 +225,10 @@ class Machine:
             return v
         if cell[0] == 'V':
             return ('unk', cell[2], cell[1], cell[3])
+        if cell[0] == 'S':
+            return ('str', cell[1])
+        if cell[0] == 'K':
+            return ('bytes', cell[1])
         return TOP
 
     def proj_value(self, st, v, step):
@@ -346,6 +350,8 @@ class Machine:
                         cell, path = ('V', v[2] + "*", t["args"][0], v[3]), ()
                     else:
                         return None
+                elif v[0] == 'str':
+                    cell, path = ('S', v[1]), ()
                 else:
                     return None
             elif k == "field":
@@ -479,6 +485,8 @@ class Machine:
             r = self.resolve_place(st, fr, rv["place"])
             if r is None:
                 return TOP
+            if r[0][0] == 'S' and not r[1]:
+                return ('str', r[0][1])       # &*"literal" is the literal
             return ('ref', r[0], r[1])
         if k == "bin":
             a = self.operand(st, fr, rv["l"])
